@@ -1,4 +1,4 @@
-from spec import H, KaniUnit, Property
+from spec import H, KaniUnit, Property, VerusUnit
 
 EP = "mithril-common/src/entities/epoch.rs"
 PROP = Property(
@@ -21,8 +21,13 @@ PROP = Property(
               ["Epoch::offset_to_recording_epoch", "Epoch::offset_to_signer_signing_offset", "Epoch::offset_to_epoch_settings_recording_epoch", "Epoch::offset_to_cardano_stake_distribution_snapshot_epoch", "Epoch::offset_to_leader_synchronization_epoch"]),
             H("c03_has_gap_with_contract", "contract", "#[kani::ensures] on the real Epoch::has_gap_with: result == (abs_diff > 1)", ["Epoch::has_gap_with"]),
         ])],
+    verus=[VerusUnit("signer_gate", "verus/C20/signer_gate.tmpl.rs",
+                     "extracted text of the signer's gate MithrilEpochService::can_signer_sign_current_epoch (+ accessors): Ok(true) ==> key material (protocol initializer) is stored for the epoch AND the epoch's current signer list "
+                     "names this party with exactly that initializer's verification key - the signer never signs before it has registered keys eligible for the current epoch",
+                     ["MithrilEpochService::can_signer_sign_current_epoch", "MithrilEpochService::is_signer_included_in_current_stake_distribution", "MithrilEpochService::{unwrap_data, epoch_of_current_data, protocol_initializer, current_signers}"])],
     assumptions=[
-        "only the epoch-offset algebra shared by signer and aggregator is decided; epochs < 2^63 - 8 (offset_by casts to i64; real epochs are < 2^32)",
+        "signer_gate: the `.iter().any(closure)` over the signer list is a contract fn; key equality (ProtocolKey ==) is an uninterpreted relation; debug!/warn! statements removed; that the state machine consults this gate before signing is read off the source (mithril-signer runtime/runner.rs can_sign_current_epoch)",
+        "only the epoch-offset algebra shared by signer and aggregator and the signer-side eligibility gate are decided; epochs < 2^63 - 8 (offset_by casts to i64; real epochs are < 2^32)",
         "that signer (runner.rs, epoch_service.rs) and aggregator (signer_registration_store.rs, single_signature_repository.rs, runner.rs) key their stores with these very functions is read off the source (call sites listed in DESIGN.md), not proved",
     ],
     explanation="Relational lemmas over the real Epoch offset functions for all epochs: a consistent renumbering of the constants still verifies, an off-by-one on either side fails.",
